@@ -9,7 +9,7 @@ import "verif/simrt"
 // calling Set).  After every completed operation of any task every document is compared
 // with the snapshot taken when it was generated.
 func runC04() *RunResult {
-	w := &World{prop: "C04", checkDocsAfterOp: true}
+	w := &World{prop: "C04", checkDocsAfterOp: true, selfReentry: true}
 	nt := 1
 	if chance(40) {
 		nt = 2 + rn(7)
